@@ -611,7 +611,7 @@ def run_many(ctx, rep, cases, profiles):
         return
     try:
         term = "[" + "; ".join("match register_n %s %d with Some _ => true | None => false end" % ("Release" if p == "release" else "Debug", n) for p, n in keys) + "]"
-        res = coq_eval(ctx, "From Coq Require Import NArith List Bool.\nFrom TV Require Import Stack.Model Stack.IdBound.\nImport ListNotations.", [("idb", term)], tag="c07idbound")["idb"]
+        res = coq_eval(ctx, "From Coq Require Import NArith List Bool.\nFrom TV Require Import Stack.Model Stack.IdBoundModel.\nImport ListNotations.", [("idb", term)], tag="c07idbound")["idb"]
         bad = [(p, n, seen[(p, n)], m) for (p, n), m in zip(keys, res) if seen[(p, n)] != m]
         rep.tie("correspondence:id-bound", not bad, "%d (profile, filters) points; accepted / refused as [register_n] says" % len(keys),
                 [{"profile": p, "filters": n, "impl_accepts": a, "model_accepts": m} for p, n, a, m in bad[:1]] or None)
